@@ -699,9 +699,9 @@ type runner struct {
 	// refIDs: identifiers some request of the case legitimately named.
 	refIDs map[string]bool
 	// preReconf: identifiers requests named before the latest reconfiguration.
-	preReconf map[string]bool
+	preReconf  map[string]bool
 	attributed map[string]bool
-	reconfs   int
+	reconfs    int
 
 	logSeen, statSeen, upSeen int
 	logs                      map[string][]dnsnode.LoggedQuery
